@@ -194,7 +194,7 @@ pub fn run(tier: Tier, seed: u64) -> i32 {
                 report.violation(Violation {
                     signature: format!("C05|{class}"),
                     scenario: "reconnect-history".into(),
-                    replay: json!({"session": s.name, "history_length": len, "deviation_bound": bound, "choices": choices, "session_key": hex(&s.k), "username": String::from_utf8_lossy(&s.user_norm)}),
+                    replay: json!({"seed": seed, "session": s.name, "history_length": len, "deviation_bound": bound, "choices": choices, "session_key": hex(&s.k), "username": String::from_utf8_lossy(&s.user_norm)}),
                     detail: json!({ "message": msg }),
                 });
             }
@@ -249,4 +249,14 @@ pub fn run(tier: Tier, seed: u64) -> i32 {
     report.space(&format!("{} sessions (credentials typed in another letter case than registered)", ss.len()));
     report.assume("the verdict oracle is proof == SHA1(U | client_data | current challenge | K) and nothing else; RNG quality is not part of this property");
     report.finish()
+}
+
+/// Replay of one recorded history (no explorer).
+pub fn replay(r: &serde_json::Value) -> Result<String, String> {
+    let seed = r["seed"].as_u64().unwrap_or(0);
+    let name = r["session"].as_str().unwrap_or("s0");
+    let ss = sessions(Tier::Thorough, seed);
+    let s = ss.iter().find(|s| s.name == name).unwrap_or_else(|| mc::util::machinery_error("C05 replay: unknown session"));
+    let choices: Vec<u32> = r["choices"].as_array().map(|a| a.iter().map(|c| c.as_u64().unwrap() as u32).collect()).unwrap_or_default();
+    history(s, seed, r["history_length"].as_u64().unwrap_or(6) as usize, &mut Chooser::replay(&choices))
 }
